@@ -186,6 +186,17 @@ def slots_task(tier):
 
 from .kani import KaniSpec      # noqa: E402
 
+def mem_tasks(tier):
+    cfgs = QUICK_CFG if tier == 'quick' else THOROUGH_CFG
+    ts = []
+    for (N, cap) in cfgs:
+        ts.append(Task("unconstrained arguments N=%d cap=%d" % (N, cap), 'seir.pgraph:ob_mem', N=N, cap=cap, _weight=50))
+        ts.append(Task("17th member N=%d cap=%d" % (N, cap), 'seir.pgraph:ob_mem_members', N=N, cap=cap, _weight=10))
+    for (N, cap) in [(1, 1), (1, 2), (2, 3), (2, 4), (3, 4), (16, 4)]:
+        ts.append(Task("lifecycle N=%d cap=%d" % (N, cap), 'seir.pgraph:ob_mem_lifecycle', N=N, cap=cap))
+    return ts
+
+
 PROPS = {
     'C15': KaniSpec('c15_', "Hex observers, indices and the six range kinds agree with the byte slice (ok / panic harness pairs); equality across representations; i64/f64 conversions"),
     'C16': KaniSpec('c16_', "concat is byte-string concatenation for all four representation combinations, split by the region of the recorded finding", known_harness='c16_concat_inside_known_region'),
@@ -200,6 +211,9 @@ PROPS = {
     'C03': GraphSpec(['add', 'put', 'data', 'bind', 'readers'],
                      "edges and data read back what was written: bind/put update exactly one entry, data()/kid()/kids() "
                      "return what the abstract state holds, every other cell of every vertex is unchanged (incl. by a collection)"),
+    'C10': GraphSpec(['clone'], "clone() from every Inv state: abstract equality of the copy, allocations of its own, original byte-identical"),
+    'C07': GraphSpec(['add', 'put', 'data', 'bind', 'next_id', 'readers', 'clone'],
+                     "every path of every operation ends in return or panic (the executor's memory model checks bounds, liveness, dealloc layout, initialisation); within limits: return; id >= capacity, (N+1)-th label, 17th member: panic", extra_tasks=mem_tasks),
     'C04': GraphSpec(['add'], "add(v) from every Inv state: blank vertex on an absent id (arbitrary stale contents), nothing changes on a present id"),
     'C05': GraphSpec(['next_id'], "next_id() from every Inv state with an absent id at or above the allocator position: result below "
                      "capacity, absent, at or above the position (so never issued before), position moves past it; nothing else changes; "
